@@ -1,15 +1,15 @@
 SPECIFICATION Spec
 CONSTANTS
-  WorkerCpus <- A_Workers
-  Menu <- A_Menu
-  Classes <- A_Classes
-  MaxLosses = 1
+  WorkerCpus <- D_Workers
+  Menu <- D_Menu
+  Classes <- D_Classes
+  MaxLosses = 0
   MaxCancels = 1
-  MaxFails = 1
+  MaxFails = 0
   MaxLaunchFails = 0
   PfReserve = 0
   PfMax = 1
-  Eager = TRUE
+  Eager = FALSE
 CHECK_DEADLOCK FALSE
 INVARIANTS
   NoPanic
@@ -40,7 +40,5 @@ INVARIANTS
   C13_CompletedOnce
   C14_AbortAllOnExceed
   C14_ExceededStopped
-  C01_OutcomeAtRest
-  C02_QuiescentOk
 PROPERTIES
   StepProps
